@@ -1,5 +1,6 @@
 import Lean.Data.Json
 import CobraModel.Model.AuxProb
+import CobraModel.Model.Fastcc
 /-! Line-protocol driver of the auxiliary-problem builders: a model description and a builder call per line,
 the whole solver problem out (same shape as `harness/canon.glpk_dump`). -/
 open Lean AuxM Core
@@ -151,6 +152,13 @@ def denseJson (p : Prob) : Json :=
 
 def handle (j : Json) : Except String Json := do
   let b ← (← j.getObjVal? "build").getStr?
+  if b == "fastccLoop" then
+    -- the bookkeeping of fastcc's main loop around the recorded answers of its solves
+    let answers ← (← (← j.getObjVal? "answers").getArr?).toList.mapM (fun r => do (← r.getArr?).toList.mapM (fun x => x.getNat?))
+    let res := FastccM.fastcc (← natsOf j "all") (← natsOf j "irr") answers
+    let nats := fun (l : List Nat) => Json.arr (l.map (fun (n : Nat) => Json.num (JsonNumber.fromNat n))).toArray
+    return Json.mkObj [("kept", nats res.kept), ("complete", Json.bool res.complete),
+      ("calls", Json.arr (res.calls.map (fun c => Json.mkObj [("j", nats c.j), ("flipped", Json.bool c.flipped), ("ans", nats c.ans)])).toArray)]
   if b == "sampler" then
     let n ← netOf (← j.getObjVal? "net")
     let extra ← (← (← j.getObjVal? "extra").getArr?).toList.mapM extraOf
